@@ -10,7 +10,7 @@
             {'file': 'overlay:cxx/sv.c', 'func': 'static_vector_dtor', 'ghost': 'G_INST(SPEC_CLR(pos));', 'at': 'body-begin', 'loop': 0}],
  'clauses': 'destructor, for every capacity N >= 1 and every valid state (elements LIVE or MOVED-from below size, RAW above): every constructed object is destroyed '
             'exactly once (ELEM_destroy only on LIVE|MOVED slots), every slot is RAW afterwards, nothing outside the storage is touched',
- 'witness': {'unwind': 5},
+ 'witness': {'unwind': 5}, 'fallback': 'ghost-free',
  'assumptions': ['valid state on entry (SV with moved-from elements allowed), instantiated at the ghost slot and at the slot the loop destroys', 'T = ELEM, N = CAP arbitrary in [1, 2^36]'],
 } @*/
 #include "c14_sv.h"
